@@ -134,7 +134,8 @@ def variants(F, t1, t2, tick=lambda: None, extra_first=False, which=None):
 
     @make_sibling(em7.run)
     def sib(*lead):
-        return em7.run(*lead) * 1.0
+        r = em7.run(*lead)
+        return tuple(x * 1.0 for x in r) if isinstance(r, (tuple, list)) else r * 1.0
     out.append(Variant("sibling", sib, (), [t1, t2], [em7]))
 
     # 8. sibling of two methods of two different objects
